@@ -313,3 +313,5 @@ def _history(case: dict[str, Any], props: list[dict[str, Any]], sys: list[float]
 
 
 FINDINGS: dict[str, Any] = {}
+
+LEVEL_NOTE += ' Rounds 13-14: the life of one manager object (bounds samples, expiry, statuses after every event); sets that are conflict-free apart from bounds strictly inside the exclusion zone (ignored by design).'
